@@ -48,9 +48,9 @@ def model_sign(env, c, privok, ecsize, sig):
     return sd, int(g[1]), (None if g[2] == "-" else g[2]), (None if g[3] == "-" else g[3])
 
 
-def gen_signing_case(rnd, env):
+def gen_signing_case(rnd, env, nhops=None):
     """An update with N-1 spec-signed hops to which the signer (hop 0) has prepended its segment."""
-    n = rnd.choice([1, 1, 2, 2, 3, 3, 4, 5, 6, 7, 8])
+    n = nhops or (rnd.choice(base.LONG_PATHS) if rnd.random() < 0.03 else rnd.choice([1, 1, 2, 2, 3, 3, 4, 5, 6, 7, 8]))
     c = base.gen_case(rnd, env, nhops=n)
     # hop 0 is the library's: drop its (independently made) signature
     c["sigs"] = c["sigs"][1:]
@@ -294,7 +294,7 @@ def run(chk):
             if time.time() - t0 > (120 if quick else 1200) and i >= 10:
                 chk.notes.append("time budget reached after %d signing cases" % i)
                 break
-            c = gen_signing_case(rnd, env)
+            c = gen_signing_case(rnd, env, nhops={3: 43, 8: 44, 13: 86}.get(i))
             n = len(c["secs"])
             stats["hops"][str(n)] = stats["hops"].get(str(n), 0) + 1
             stats["afi"][str(c["afi"])] = stats["afi"].get(str(c["afi"]), 0) + 1
